@@ -187,6 +187,8 @@ class Mapper:
     def listener_of(self, i, tid, port):
         if (i, tid) in self.lst:
             return self.lst[(i, tid)]
+        if port not in self.ports:
+            return None
         base = self.ports.index(port) * self.per_port
         for j in range(base, base + self.per_port):
             if (i, j) not in self.taken:
@@ -413,11 +415,21 @@ def model_check(nl, entries):
 
 
 def analyse(c, i):
-    """everything the checks need from one run -> dict (cached on the case, per output)"""
+    """everything the checks need from one run -> dict (cached on the case, per output); an output that cannot be analysed is a
+    complaint, never a crash of the check"""
     key = hash(i)
     if c.meta.get("an_key") == key:
         return c.meta["an"]
     c.meta["an_key"] = key
+    try:
+        return _analyse(c, i)
+    except Exception as e:  # noqa: BLE001
+        import traceback
+        c.meta["an"] = {"crash": "%s: %s (%s)" % (type(e).__name__, e, traceback.format_exc().strip().splitlines()[-3].strip())}
+        return c.meta["an"]
+
+
+def _analyse(c, i):
     r = parse_out(i)
     if r is None:
         c.meta["an"] = None
@@ -442,10 +454,10 @@ def analyse(c, i):
             newest = val
             t_hstart[val] = t
         elif name == "ex.bound":
-            bound[val][inst] = bound[val].get(inst, 0) + 1
+            bound.setdefault(val, {})[inst] = bound.get(val, {}).get(inst, 0) + 1
             everb[inst] = everb.get(inst, 0) + 1
         elif name == "al.shut":
-            bound[val][inst] = bound[val].get(inst, 0) - 1
+            bound.setdefault(val, {})[inst] = bound.get(val, {}).get(inst, 0) - 1
             if order is None and everb.get(inst + 1, 0) < nl and inst < newest:
                 order = ("instance %d closed a listener of port %d at %d us before instance %d had bound and put into listening state "
                          "every socket (%d of %d)" % (inst, val, t, inst + 1, everb.get(inst + 1, 0), nl))
@@ -548,7 +560,7 @@ def compare(c, i, m):
     if c.meta.get("kind") == "malformed":
         return i == m
     an = analyse(c, i)
-    if an is None:
+    if an is None or "crash" in an:
         return False
     try:
         mm = py(kv.xparse(m))
@@ -566,6 +578,8 @@ def complaints(c, i):
     an = analyse(c, i)
     if an is None:
         return []
+    if "crash" in an:
+        return [(False, "the run's output could not be analysed: " + an["crash"])]
     r = an["r"]
     k = c.meta["k"]
     why = []
@@ -694,7 +708,7 @@ def is_trouble(c, i):
     if c.meta.get("kind") == "replay":
         return False
     an = analyse(c, i)
-    if an is None:
+    if an is None or "crash" in an:
         return False
     if an["r"]["stalled"] != 0:
         return True
@@ -767,8 +781,8 @@ def generate(rng, tier):
     cases.append(case(1, 1, 1, 19, 50, [], 60, 0, 40, "idle-keep-alive", ka=2))
     # the witness of eager_start_refuted: every successor is started as soon as execute() of its predecessor has returned, while
     # the predecessor's main task keeps its thread busy (current-thread runtime: its control-socket task cannot run)
-    cases.append(case(1, 2, 0, 5, 100, [], 100, 1, 50, "eager-start", eager=1, block=50))
-    cases.append(case(2, 3, 1, 6, 100, [D("ctl.started", 30, 1, 1)], 120, 2, 40, "eager-start", eager=1, block=20, ka=1))
+    cases.append(case(1, 2, 0, 5, 100, [], 100, 1, 50, "eager-start", eager=1, block=400))
+    cases.append(case(2, 3, 0, 6, 100, [D("ctl.started", 30, 1, 1)], 120, 2, 40, "eager-start", eager=1, block=250, ka=1))
     for x in [xn(3), xl(xn(1)), xl(*[xn(0)] * 14), xl(*([xn(1)] * 13 + [xl()]))]:
         cases.append(Case("handover.run", x, None, {"kind": "malformed"}, "dev"))
     nrand = 10 if quick else 300
@@ -786,7 +800,7 @@ def generate(rng, tier):
         dual = rng.choice([0, 0, 1])
         stale = rng.choice([0, 0, 0, 1])
         eager = rng.choice([0, 0, 1])
-        block = rng.choice([0, 20, 60]) if eager else 0
+        block = rng.choice([0, 60, 300]) if eager else 0
         cases.append(case(n, k, fl, rng.randrange(1, 1 << 30), jitter, random_delays(rng), slow, nslow, gap, "random", ka=ka, dual=dual,
                           stale=stale, eager=eager, block=block))
     return cases
@@ -823,7 +837,7 @@ def extra_coverage(cases, impl, model, spec):
     delayed = {}
     for c in cases:
         an = c.meta.get("an")
-        if not an:
+        if not an or "crash" in an:
             continue
         tot["handovers"] += c.meta["k"]
         tot["exchanges"] += an["total"]
@@ -860,7 +874,7 @@ RULE = ("Chains of 1-5 handovers between real servers in one process (RunConfig:
         "before each point a thread waits a seeded random time (0-600 us) and, at up to three hook points drawn from ALL points, a delay of "
         "5-300 ms taken from the case (applied to the instance that is starting and to instances that are being replaced). A successor is "
         "started when its predecessor answers on the control socket, or (eager) as soon as execute() of its predecessor has returned, the "
-        "predecessor's main task blocking its thread for 0-60 ms; optionally a stale socket file lies at the path before the first instance. "
+        "predecessor's main task blocking its thread for 0-400 ms; optionally a stale socket file lies at the path before the first instance. "
         "Uninstrumented clients: per port and family a back-to-back client (one request per connection), 0-3 requests with a slow handler "
         "(60-400 ms) in flight across every switch, per port a keep-alive client (a request every 2-8 ms on one connection for as long as "
         "the server keeps it), an idle keep-alive connection (one request, then silence until the server closes it); every answer names the "
